@@ -702,6 +702,24 @@ impl<R: RoleX, T: IsPacketId> Sess<R, T> {
         }
     }
 
+    /// `recv` on an empty buffer (an exhausted cursor)
+    pub fn recv_empty(&mut self) {
+        if self.dead {
+            return;
+        }
+        let empty: [u8; 0] = [];
+        let mut cur = mqtt::common::Cursor::new(&empty[..]);
+        let r = catch_unwind(AssertUnwindSafe(|| self.c.recv(&mut cur)));
+        match r {
+            Ok(evs) => {
+                self.note_events(&evs);
+                let s = show_events(&evs);
+                self.line("recv_empty", "cons=0 frame=none parsed=-", Ok((s, "-".into())));
+            }
+            Err(_) => self.line("recv_empty", "cons=0 frame=none parsed=-", Err(())),
+        }
+    }
+
     /// feed one receive buffer: `recv` is called until the buffer is exhausted
     pub fn recv_chunk(&mut self, chunk: &[u8]) {
         let mut cur = mqtt::common::Cursor::new(chunk);
@@ -951,6 +969,7 @@ impl<R: RoleX, T: IsPacketId> Sess<R, T> {
         match w[0] {
             "send" => self.send_bytes(w[1].parse().unwrap(), &unhex(w[2]), w.get(3) == Some(&"c")),
             "recv" => self.recv_chunk(&unhex(w[1])),
+            "recv_empty" => self.recv_empty(),
             "timer" => self.timer(match w[1] {
                 "S" => 0,
                 "R" => 1,
